@@ -5,7 +5,9 @@
 static unsigned long vals[1024]; static int nv, pos, failures;
 static int exhausted;
 extern "C" unsigned __VERIFIER_nondet_uint(void) { if (pos >= nv) { if (!exhausted) std::printf("NOTE: nondet vector exhausted (values past the end are 0)\n"); exhausted = 1; return 0; } return (unsigned)vals[pos++]; }
-extern "C" unsigned __VERIFIER_nondet_uint_unlogged(void) { return 0; }
+// second vector (after the argument "--heap"): the choices of the specification-level heap model, for replays with -DSPEC_HEAP
+static unsigned long hvals[4096]; static int nh, hpos;
+extern "C" unsigned __VERIFIER_nondet_uint_unlogged(void) { return hpos < nh ? (unsigned)hvals[hpos++] : 0; }
 extern "C" void __VERIFIER_assume(int c) { if (!c) { std::printf(exhausted ? "NOTE: stopped at an assumption after the vector was exhausted\n" : "REPLAY: assumption violated\n"); std::fflush(stdout); std::_Exit(exhausted ? (failures ? 1 : 0) : 3); } }
 extern "C" void __VERIFIER_assert(int c, const char *m) {
     if (std::strncmp(m, "UB: ", 4) == 0 || std::strncmp(m, "unwinding", 9) == 0) { if (!c) { std::printf("ASSERT FAIL: %s\n", m); ++failures; } return; }
@@ -13,4 +15,5 @@ extern "C" void __VERIFIER_assert(int c, const char *m) {
 extern "C" void __VERIFIER_reach(const char *m) { std::printf("REACH: %s\n", m); std::fflush(stdout); }
 extern "C" void __VERIFIER_freeze(const void *) {}
 extern "C" void harness();
-int main(int argc, char **argv) { for (int i = 1; i < argc && nv < 1024; ++i) vals[nv++] = std::strtoul(argv[i], 0, 10); harness(); std::fflush(stdout); return failures ? 1 : 0; }
+int main(int argc, char **argv) { int i = 1; for (; i < argc && nv < 1024 && std::strcmp(argv[i], "--heap"); ++i) vals[nv++] = std::strtoul(argv[i], 0, 10);
+    for (++i; i < argc && nh < 4096; ++i) hvals[nh++] = std::strtoul(argv[i], 0, 10); harness(); std::fflush(stdout); return failures ? 1 : 0; }
